@@ -447,7 +447,11 @@ static struct precalc_s {
 		us = us >= 0 ? us : -us;
 	}
 
-	if (f.has_week) {
+	if (f.has_week && f.has_biz && !f.has_year && !f.has_mon && !f.has_qtr) {
+		/* a week has 5 business days */
+		res.w = us / (5 * SECS_PER_DAY);
+		us %= 5 * SECS_PER_DAY;
+	} else if (f.has_week) {
 		/* week shadows days in the hierarchy */
 		res.w = us / SECS_PER_WEEK;
 		us %= SECS_PER_WEEK;
